@@ -105,10 +105,33 @@ func vMk(n, b int) []byte {
 }
 
 // key universes (sorted ascending; id = position)
+// vBoundOnly: keys of the universe that are only ever used as iteration bounds (never written), so that seeks for
+// absent keys that leave a compressed prefix deep inside it are exercised
+var vBoundOnly map[string]bool
+
 func vUniverse(rng *rand.Rand) [][]byte {
+	vBoundOnly = map[string]bool{}
 	long := strings.Repeat("p", 23) // longer than the in-node prefix (20)
 	var ks []string
-	switch rng.Intn(5) {
+	switch rng.Intn(7) {
+	case 5, 6: // a compressed prefix longer than the in-node prefix with non-uniform bytes, a growing fan-out below it,
+		// and keys / bounds that leave the prefix at an index beyond the in-node part
+		pre := "abcdefghijklmnopqrstuvwxy"[:22+rng.Intn(4)]
+		nch := []int{6, 18, 18, 52}[rng.Intn(4)]
+		for i := 0; i < nch; i++ {
+			ks = append(ks, pre+string([]byte{byte(2 + i*4)}))
+		}
+		ks = append(ks, pre, pre+"\x0ax", pre+"\x0ay", pre[:21]+"\x01", pre[:21]+"\xfe", pre[:20]+"\x00", pre[:20]+"\xff", pre[:len(pre)-1]+"\x00", "a", "b")
+		for _, b := range []string{pre[:21] + "\x01", pre[:21] + "\xfe", pre[:20] + "\x00", pre[:20] + "\xff", pre[:len(pre)-1] + "\x00"} {
+			if rng.Intn(4) != 0 { // mostly bounds only: written, they would split the long compressed prefix
+				vBoundOnly[b] = true
+			}
+		}
+		// keys (used as bounds, never written) that leave the prefix beyond the in-node part with a byte next to the prefix's own
+		for d := 20; d < len(pre); d++ {
+			ks = append(ks, pre[:d]+string([]byte{pre[d] - 1}), pre[:d]+string([]byte{pre[d] + 1}))
+			vBoundOnly[pre[:d]+string([]byte{pre[d] - 1})], vBoundOnly[pre[:d]+string([]byte{pre[d] + 1})] = true, true
+		}
 	case 0: // prefix chains, empty key, 0x00 / 0xff
 		ks = []string{"", "\x00", "a", "a\x00", "a\x00\x00", "a\xff", "ab", "b", "\xff", "\xff\xff"}
 	case 1: // shared prefixes longer than the in-node prefix, keys that are prefixes of others
@@ -334,6 +357,20 @@ func (d *vDrv) exec(o vM) (ev vM) {
 	case "Get":
 		v, err := d.buf.Get(ctx, d.keys[gi("k")-1])
 		res, out = vErrName(err), vVal(v.Value, err == nil)
+	case "BatchGet":
+		var ks [][]byte
+		for _, k := range o["ks"].([]int) {
+			ks = append(ks, d.keys[k-1])
+		}
+		m, err := d.buf.BatchGet(ctx, ks)
+		res = vErrName(err)
+		l := []vM{}
+		for _, k := range o["ks"].([]int) {
+			if v, ok := m[string(d.keys[k-1])]; ok {
+				l = append(l, vM{"k": k, "v": vVal(v.Value, true)})
+			}
+		}
+		out = l
 	case "Iter":
 		it, err := d.buf.Iter(d.bound(gi("lo")), d.bound(gi("hi")))
 		if err != nil {
@@ -428,6 +465,7 @@ func (d *vDrv) exec(o vM) (ev vM) {
 
 // ------------------------------------------------------------------------------------------------
 type vGen struct {
+	bonly   []int // ids of bound-only keys
 	rng     *rand.Rand
 	n       int
 	nst     int
@@ -437,11 +475,24 @@ type vGen struct {
 	hot     []int
 }
 
-func (g *vGen) key() int {
-	if len(g.hot) > 0 && g.rng.Intn(4) != 0 {
-		return g.hot[g.rng.Intn(len(g.hot))]
+func (g *vGen) isBoundOnly(k int) bool {
+	for _, b := range g.bonly {
+		if b == k {
+			return true
+		}
 	}
-	return 1 + g.rng.Intn(g.n)
+	return false
+}
+func (g *vGen) key() int {
+	for {
+		k := 1 + g.rng.Intn(g.n)
+		if len(g.hot) > 0 && g.rng.Intn(4) != 0 {
+			k = g.hot[g.rng.Intn(len(g.hot))]
+		}
+		if !g.isBoundOnly(k) {
+			return k
+		}
+	}
 }
 func (g *vGen) bounds() (int, int) {
 	lo, hi := 0, 0
@@ -450,6 +501,13 @@ func (g *vGen) bounds() (int, int) {
 	}
 	if g.rng.Intn(3) != 0 {
 		hi = 1 + g.rng.Intn(g.n)
+	}
+	if len(g.bonly) > 0 && g.rng.Intn(2) == 0 {
+		if g.rng.Intn(2) == 0 {
+			lo = g.bonly[g.rng.Intn(len(g.bonly))]
+		} else {
+			hi = g.bonly[g.rng.Intn(len(g.bonly))]
+		}
 	}
 	if lo != 0 && hi != 0 && lo > hi {
 		lo, hi = hi, lo
@@ -525,8 +583,20 @@ func (g *vGen) next() vM {
 		}
 	case r < 63:
 		return vM{"op": "SetLimits", "entry": []int{-1, 12, 5000}[g.rng.Intn(3)], "buffer": []int{-1, 40, 20000}[g.rng.Intn(3)]}
-	case r < 67:
+	case r < 65:
 		return vM{"op": "Get", "k": g.key()}
+	case r < 67:
+		n := 1 + g.rng.Intn(4)
+		ks := []int{}
+		seen := map[int]bool{}
+		for len(ks) < n {
+			k := 1 + g.rng.Intn(g.n)
+			if !seen[k] {
+				seen[k] = true
+				ks = append(ks, k)
+			}
+		}
+		return vM{"op": "BatchGet", "ks": ks}
 	case r < 73:
 		lo, hi := g.bounds()
 		return vM{"op": []string{"Iter", "IterReverse"}[g.rng.Intn(2)], "lo": lo, "hi": hi}
@@ -584,18 +654,30 @@ func TestVerifMemBuffer(t *testing.T) {
 	for sc := 0; sc < nscen; sc++ {
 		keys := vUniverse(rng)
 		g := &vGen{rng: rng, n: len(keys), union: union}
+		for i, k := range keys {
+			if vBoundOnly[string(k)] {
+				g.bonly = append(g.bonly, i+1)
+			}
+		}
 		for i := 0; i < 3+rng.Intn(4); i++ {
-			g.hot = append(g.hot, 1+rng.Intn(len(keys)))
+			if h := 1 + rng.Intn(len(keys)); !g.isBoundOnly(h) {
+				g.hot = append(g.hot, h)
+			}
 		}
 		nops := 20 + rng.Intn(80)
 		if len(keys) > 20 {
 			nops = 10 + rng.Intn(40)
 		}
 		var ops []vM
+		if rng.Intn(3) == 0 { // a statement-style start: everything is written inside an unreleased staging level
+			g.nst++
+			g.cpsFrom = append(g.cpsFrom, g.ncps)
+			ops = append(ops, vM{"op": "Staging"})
+		}
 		// fan-out universes: insert most keys first so that node growth happens, in random order
 		if len(keys) > 20 {
 			for _, i := range rng.Perm(len(keys)) {
-				if rng.Intn(10) != 0 {
+				if rng.Intn(10) != 0 && !vBoundOnly[string(keys[i])] {
 					ops = append(ops, vM{"op": "Write", "k": i + 1, "v": vM{"n": 1 + rng.Intn(2), "b": 1 + rng.Intn(9)}, "ops": []string{}})
 				}
 				if rng.Intn(25) == 0 {
@@ -605,6 +687,12 @@ func TestVerifMemBuffer(t *testing.T) {
 		}
 		for i := 0; i < nops; i++ {
 			ops = append(ops, g.next())
+		}
+		// sweep: every bound-only key once as lower and once as upper bound, in both directions
+		for _, b := range g.bonly {
+			ops = append(ops, vM{"op": "Iter", "lo": b, "hi": 0}, vM{"op": "IterReverse", "lo": 0, "hi": b},
+				vM{"op": []string{"Iter", "IterReverse", "SnapIter", "SnapIterReverse"}[rng.Intn(4)], "lo": 0, "hi": b},
+				vM{"op": []string{"Iter", "IterReverse", "SnapIter", "SnapIterReverse"}[rng.Intn(4)], "lo": b, "hi": 0})
 		}
 		if !union && rng.Intn(2) == 0 {
 			ops = append(ops, vM{"op": "IterInvalidation", "k": g.key(), "ops": []string{}})
